@@ -26,7 +26,7 @@ RULE = ("random spec-level alignment records (0..4 references, refID -1, read na
         "(occasionally > 65535), qualities 0..93, optional tag bytes, random BGZF block sizes) encoded by an independent encoder; "
         "x whole read / every (small files) or sampled chunk size >= largest record / interval via BamIntervalBuffer and "
         "alignment_to_interval / {whole, every mask of five, permutations and repetitions of equal-sized records, chunk-stream} write "
-        "back / eager reading (lazy=False) / count_entries / write of a chunk with replaced values (must be refused). Non-trivial = >= 2 records with "
+        "back / read a field, write the selection, read all fields again / eager reading (lazy=False) / count_entries / write of a chunk with replaced values (must be refused). Non-trivial = >= 2 records with "
         "different name-length / CIGAR-count / sequence-parity shapes")
 EXHAUSTIVE = {"quick": False, "thorough": False}
 MODEL_OPS = {"decode", "chunked", "interval", "write", "count"}
@@ -55,7 +55,7 @@ MANIFEST = {
             "is outside the modelled domain. Measured (16 cores, seeds 0-3): quick 15-30 s / ~3.7k cases, thorough 3-5 min / ~59k cases "
             "(every chunk size from the largest record to file size + 2 for the small files). Defects found and fixed in /repo: "
             "ebaee36 (unmapped -> last reference name; zero-reference BAM unreadable), d080e2f (uint16 wrap of n_cigar_op*4), "
-            "9afb68d (count_entries on BAM raised NameError). 47 audited theorems incl. a complete spec-level decoder inverting the encoder.",
+            "9afb68d (count_entries on BAM raised NameError), 4c831e1 (stale cached offsets after a selection was written). 48 audited theorems incl. a complete spec-level decoder inverting the encoder.",
     "technique": "Lean 4 proof (induction over the record list) over an executable decoder model + spec-level encoder; tables regenerated "
                  "from source (decide); differential correspondence with the implementation on independently encoded files",
     "design": "§6 C16",
@@ -229,6 +229,26 @@ def impl(c):
                 return {"n": int(bnp.count_entries(p))}
             except Exception as e:
                 return _err(e)
+        if op == "write_then_read":
+            out = _path("out")
+            try:
+                d = bnp.open(p, **kw).read()
+                if c["sel"] == "mask":
+                    m = np.zeros(len(c["recs"]), dtype=bool)
+                    m[c["idx"]] = True
+                    fsel = d[m]
+                elif c["sel"] == "slice":
+                    fsel = d[c["idx"][0]:c["idx"][-1] + 1] if c["idx"] else d[0:0]
+                else:
+                    fsel = d[np.array(c["idx"], dtype=int)]
+                first = getattr(fsel, c["first"])
+                with bnp.open(out, "w") as f:
+                    f.write(fsel)
+                raw = gzip.decompress(open(out, "rb").read())
+                text, refs, recs, hdr_end = decode_file_bytes(raw)
+                return {"written": [_full(r) for r in recs], "after": _rows(fsel)}
+            except Exception as e:
+                return _err(e)
         if op == "write_modified":
             out = _path("out")
             try:
@@ -318,6 +338,10 @@ def oracle(c):
     body = b"".join(encode_record(r) for r in recs)
     if op == "count":
         return {"n": len(recs)}
+    if op == "write_then_read":
+        idx = c["idx"] if c["sel"] != "slice" else (list(range(c["idx"][0], c["idx"][-1] + 1)) if c["idx"] else [])
+        sel = [recs[i] for i in idx]
+        return {"written": [_full(dict(r, cigar=[list(x) for x in r["cigar"]])) for r in sel], "after": [view(refs, r) for r in sel]}
     if op == "write_modified":
         key = {"position": "pos", "mapq": "mapq", "flag": "flag"}[c["field"]]
         return {"refused_or": [_full(dict(r, cigar=[list(x) for x in r["cigar"]], **{key: r[key] + 1})) for r in recs]}
@@ -436,6 +460,10 @@ def finding_key(c, got, exp):
                         return "interval:n_cigar>=16384"
                     return f"interval:{which}:wrong-" + ["chromosome", "start", "stop", "name", "score", "strand"][bad[0][1]]
                 return f"interval:{which}:wrong-count"
+    if op == "write_then_read":
+        if isinstance(got, dict) and got.get("written") == exp["written"]:
+            return "write_then_read:selection-reads-differently-after-being-written"
+        return "write_then_read:wrong-file"
     if op == "count":
         return "count_entries:wrong-count"
     if op == "write_modified":
@@ -627,6 +655,17 @@ def cases(tier, rng):
         for k in sorted({s + 1, s + 2, 2 * s, 2 * s + 1, 2 * s + 2, 2 * s + 3, 3 * s + 1, 3 * s + 2}):
             yield dict(c, op="chunked", k=k)
         yield dict(c, op="write", mode="chunks", idx=[], k=rng.choice([s + 1, s + 2, 2 * s + 1]))
+    # a selection of a chunk: read one field, WRITE the selection (compacts it in place), read every field again
+    FIELDS = ["chromosome", "name", "flag", "position", "mapq", "cigar_op", "cigar_length", "sequence", "quality"]
+    for fld in FIELDS:
+        for sel, idx in (("mask", [0, 2, 3]), ("index", [3, 0, 2]), ("slice", [1, 2, 3])):
+            yield {"op": "write_then_read", "refs": two, "text": [], "recs": uneq[:5], "blk": 4096, "eof": True, "sel": sel, "idx": idx, "first": fld}
+    for _ in range(30 * f):
+        c = rand_file(rng, nrec=rng.choice([2, 3, 5]))
+        n = len(c["recs"])
+        sel = rng.choice(["mask", "index", "slice"])
+        idx = sorted(rng.sample(range(n), rng.randrange(1, n + 1))) if sel != "index" else [rng.randrange(n) for _ in range(rng.choice([1, n, n + 1]))]
+        yield dict(c, op="write_then_read", sel=sel, idx=idx, first=rng.choice(FIELDS))
     # eager reading (BamBuffer.get_data / BamIntervalBuffer.get_data), count_entries, writing a chunk with replaced values
     yield {"op": "count", "refs": two, "text": [], "recs": [base, unm, rv], "blk": 4096, "eof": True}
     for _ in range(40 * f):
